@@ -148,7 +148,7 @@ UpdatePositionReply(W, id, input, output) ==
                       m1 == IF mtv < 0 THEN wd.msgs
                             ELSE IF mtv > 0 /\ ~W.eng.cfg.native THEN <<XferFrom(W, t, "engine", mtv)>>
                             ELSE <<>>
-                      req1 == IF mtv > 0 /\ W.eng.cfg.native THEN fd.required + smargin ELSE fd.required
+                      req1 == IF mtv > 0 /\ W.eng.cfg.native THEN fd.required + mtv ELSE fd.required   \* fix F3
                       fe == Fees(W, t, v, sw.on)
                       m2 == IF sw.paid THEN <<>> ELSE fe.msgs
                       req2 == IF sw.paid THEN req1 ELSE req1 + fe.spread + fe.toll
@@ -186,9 +186,7 @@ ReversePositionReply(W, input, output) ==
           ELSE Done([W1 EXCEPT !.eng.tmp.swap = FALSE, !.eng.tmp.funds = FALSE,
                                !.eng.tmpd.swap = NoTmpd.swap, !.eng.tmpd.funds = NoTmpd.funds],
                     fe.msgs \o <<Xfer(W, t, Abs(mtv))>>)
-     ELSE LET req == IF mtv >= 0 THEN req0 + Abs(mtv)
-                     ELSE IF req0 > Abs(mtv) THEN req0 - Abs(mtv)
-                     ELSE fe.spread + fe.toll
+     ELSE LET req == req0          \* fix F3: the fees in full; the re-opened leg adds the net amount owed
           IN Done([W1 EXCEPT !.eng.tmpd.swap = [sw EXCEPT !.on = rest, !.mtv = mtv, !.upnl = 0, !.paid = TRUE],
                              !.eng.tmpd.funds = [fd EXCEPT !.required = req]],
                   fe.msgs \o <<SwapIn(v, sw.side, rest, 0, FALSE, 1)>>)
